@@ -259,6 +259,54 @@ def explore_triples(tier, seed=0):
     return val["triples"], hit, val["wall"]
 
 
+def default_set_project():
+    """One canonical trigger file per batchable pixee codemod + the collision file, manifests and an unparseable file."""
+    files = {
+        "collide.py": COLLISION,
+        "requirements.txt": MANIFEST,
+        "setup.cfg": MANIFEST2,
+        "setup.py": SETUP_PY,
+        "legacy.py": b"print 'python 2 only'\n",
+    }
+    seen = set()
+    for sd in progspace.load_seeds():
+        if sd.kind == "trigger" and sd.origin == "pixee" and sd.batchable and sd.compiles and sd.codemod not in seen:
+            seen.add(sd.codemod)
+            files[f"src/{sd.codemod.split('/')[-1].replace('-', '_')}.py"] = sd.input.encode()
+    return files
+
+
+def default_set_job(extra_argv=()):
+    """The whole default find-and-fix set: one invocation vs the chain of single-codemod invocations in the executed order."""
+    files = default_set_project()
+    b = drive.run_inproc(drive.Job(files=files, argv=["{dir}"] + list(extra_argv)))
+    if b.error:
+        raise core.HarnessError(b.error)
+    order = [r["codemod"] for r in (b.report or {}).get("results", [])]
+    chain, tree = [], files
+    for k in order:
+        o = drive.run_inproc(drive.Job(files=tree, argv=["{dir}", "--codemod-include", k] + list(extra_argv)))
+        if o.error:
+            raise core.HarnessError(o.error)
+        chain.append(lite(o, 0))
+        tree = o.final
+    for c in chain:
+        c.pop("logs", None)
+        c.pop("report", None)
+    return {"seq": tuple(order), "files": files, "batch": lite(b, 0), "chain": chain}
+
+
+def explore_default_set(tier, seed=0):
+    def compute():
+        t0 = time.time()
+        jobs = [()] if tier == "quick" else [(), ("--max-workers", "4")]
+        res = drive.pmap("cmverif.seqspace:default_set_job", jobs)
+        return {"runs": res, "wall": time.time() - t0}
+
+    val, hit = cache.cached(f"seqspace-default-set-{tier}", compute)
+    return val["runs"], hit, val["wall"]
+
+
 def codemods(tier):
     return QUICK if tier == "quick" else QUICK + THOROUGH_EXTRA
 
